@@ -3,6 +3,8 @@
 package knx
 
 import (
+	"time"
+
 	"github.com/vapourismo/knx-go/knx/cemi"
 	"github.com/vapourismo/knx-go/knx/knxnet"
 )
@@ -54,6 +56,40 @@ func c12RouterLData(i int) *cemi.LData {
 	return &m.LData
 }
 
+// newBBGroupTunnel builds the group tunnel client through its real constructor (see zz_verif_tunnel.go).
+func newBBGroupTunnel() (GroupTunnel, *tunGW) {
+	c := nondetU8()
+	g := newTunGW("udp", func(f knxnet.Service) []knxnet.Service {
+		switch r := f.(type) {
+		case *knxnet.ConnReq:
+			return []knxnet.Service{&knxnet.ConnRes{Channel: c, Status: 0}}
+		case *knxnet.ConnStateReq:
+			return []knxnet.Service{&knxnet.ConnStateRes{Channel: r.Channel, Status: 0}}
+		case *knxnet.TunnelReq:
+			return []knxnet.Service{&knxnet.TunnelRes{Channel: r.Channel, SeqNumber: r.SeqNumber, Status: 0}}
+		}
+		return nil
+	})
+	gt, err := NewGroupTunnel("192.0.2.1:3671", TunnelConfig{ResendInterval: 2 * time.Second, HeartbeatInterval: 100 * time.Second, ResponseTimeout: 5 * time.Second})
+	if err != nil {
+		verifFail("env.tunnel_constructor")
+	}
+	return gt, g
+}
+
+// c12TunnelLData returns the L_Data part of every tunnelling request the gateway has seen.
+func c12TunnelLData(g *tunGW) []*cemi.LData {
+	var out []*cemi.LData
+	for _, f := range g.frames {
+		if req, ok := f.(*knxnet.TunnelReq); ok {
+			m, ok := req.Payload.(*cemi.LDataReq)
+			verifAssert("C12.out.req", ok && m.MessageCode() == cemi.LDataReqCode)
+			out = append(out, &m.LData)
+		}
+	}
+	return out
+}
+
 // newGroupRouterEnv builds the group router client through its real constructor (see zz_verif_router.go).
 func newGroupRouterEnv() GroupRouter {
 	knxnet.VerifReset("udp")
@@ -70,7 +106,15 @@ func HarnessC12Out(a []int) {
 	n := a[1]
 	ev := c12Event(n)
 	sock := newVSock()
-	if a[0] == 0 {
+	if a[0] == 2 {
+		// group tunnel built by the real NewGroupTunnel against the scripted gateway; the request is
+		// read back from the bytes written
+		gt, g := newBBGroupTunnel()
+		err := gt.Send(ev)
+		lds := c12TunnelLData(g)
+		verifAssert("C12.out.sent", err == nil && len(lds) == 1)
+		c12CheckLData(lds[0], ev, n, true)
+	} else if a[0] == 0 {
 		gt := GroupTunnel{Tunnel: &Tunnel{sock: sock, config: TunnelConfig{UseTCP: true}, channel: nondetU8()}}
 		err := gt.Send(ev)
 		verifAssert("C12.out.sent", err == nil && len(sock.log) == 1)
@@ -207,7 +251,13 @@ func HarnessC12OutSeq(a []int) {
 	ev1, ev2 := c12Event(a[1]), c12Event(a[2])
 	sock := newVSock()
 	var lds [2]*cemi.LData
-	if a[0] == 0 {
+	if a[0] == 2 {
+		gt, g := newBBGroupTunnel()
+		verifAssert("C12.out.sent", gt.Send(ev1) == nil && gt.Send(ev2) == nil)
+		got := c12TunnelLData(g)
+		verifAssert("C12.out.sent", len(got) == 2)
+		lds[0], lds[1] = got[0], got[1]
+	} else if a[0] == 0 {
 		gt := GroupTunnel{Tunnel: &Tunnel{sock: sock, config: TunnelConfig{UseTCP: true}, channel: nondetU8()}}
 		verifAssert("C12.out.sent", gt.Send(ev1) == nil && gt.Send(ev2) == nil && len(sock.log) == 2)
 		for i := range lds {
@@ -222,7 +272,7 @@ func HarnessC12OutSeq(a []int) {
 			lds[i] = c12RouterLData(i)
 		}
 	}
-	c12CheckLData(lds[0], ev1, a[1], a[0] == 1)
-	c12CheckLData(lds[1], ev2, a[2], a[0] == 1)
+	c12CheckLData(lds[0], ev1, a[1], a[0] >= 1)
+	c12CheckLData(lds[1], ev2, a[2], a[0] >= 1)
 	verifCover("C12.outseq.end")
 }
